@@ -9,7 +9,7 @@ R5 span-scoped directives: enter pushes / exit pops under the same predicate; cl
 """
 from rulekit import Facts, where
 from rulekit.sym import PathEval, show
-from rulekit.query import field_users, guards_of
+from rulekit.query import field_users, guards_of, closure_of_term
 
 D = "tracing_subscriber::filter::directive::"
 E = "tracing_subscriber::filter::env::"
@@ -108,6 +108,16 @@ def r2(ck, F):
         first = "discr(next(%s))" % it
         lvl = "level(arg2)" if m == "enabled" else "arg3"
         want = {(first, 0): "0", (first, 1): "ge((next(%s) as Some).0.level, %s)" % (it, lvl)}
+        if not rows:
+            # the same table written as `ITER.next().map_or(false, |d| d.level >= level)`
+            ps = [p for p in PathEval(b).run() if p.end == "return"]
+            if len(ps) == 1 and ps[0].ret[0] == "call" and ps[0].ret[1].endswith("::map_or") and len(ps[0].ret[2]) == 3:
+                recv, dflt, clo = ps[0].ret[2]
+                cb = F.body(closure_of_term(clo) or "")
+                crets = {show(q.ret) for q in PathEval(cb).run() if q.end == "return"} if cb else set()
+                if show(recv) == "next(%s)" % it and dflt[0] == "const" and dflt[2] == 0 and len(crets) == 1 and \
+                        list(crets)[0].startswith("ge(arg2.level, "):
+                    rows = dict(want)
         tabs[m] = rows
         if rows == want:
             ck.ok("C11.R2", "%s: first caring directive decides by `d.level >= level`; none -> false" % m, fn=b.path, detail={str(k): v for k, v in rows.items()})
